@@ -107,6 +107,36 @@ pub fn main(args: &[String]) {
             rep.traces = rep.evaluations;
             rep.sample(json!({"patterns": patterns.iter().take(3).collect::<Vec<_>>(), "values": cat.iter().map(|c| c.0.clone()).collect::<Vec<_>>()}));
         }
+        Some("graphs") => {
+            // every graph of a C05 family: repeated compilations (fresh hash seeds per map) and a few id gap
+            // patterns must give identical bytes
+            let path = arg_after(args, "--cases").expect("--cases");
+            let pats: Vec<Vec<u64>> = vec![vec![], vec![3], vec![0, 5, 1], vec![1_000_003, 0, 7]];
+            fvcore::tlc_stream(&path, &["CASE"], |_, c| {
+                let g = MockGraph::from_json(&c);
+                let mut first: Option<Result<Vec<u8>, String>> = None;
+                for round in 0..6 {
+                    graph_verif::set_gap_pattern(pats[round % pats.len()].clone());
+                    let r = match compile(&g) {
+                        Err(p) => Err(format!("panic: {p}")),
+                        Ok(x) => x.map_err(|_| "packing failed".to_string()),
+                    };
+                    graph_verif::set_gap_pattern(vec![]);
+                    rep.evaluations += 1;
+                    match &first {
+                        None => first = Some(r),
+                        Some(f) => {
+                            if *f != r {
+                                rep.violation("repeated compilations of one graph give different results", json!({"kind": "determinism-graph", "graph": c}));
+                                break;
+                            }
+                        }
+                    }
+                }
+                rep.distinct += 1;
+            });
+            rep.traces = rep.distinct;
+        }
         Some("threads") => {
             // V: real threads compile the catalogue concurrently; ids logged through H1b
             let outp = arg_after(args, "--out").expect("--out");
